@@ -68,6 +68,13 @@ PROJECTS = {
     'buildtime_option': (dict(site.PROJECT_B), ['--project-name', 'proj', '--buildtime', '2020-02-02 02:02:02', '--theme', 'readthedocs'], 'no_epoch'),
     # most features at once (zope interfaces, overloads, re-exports, import cycle, several docformats, a module root next to the package)
     'kitchen': (dict(kitchen.KITCHEN), ['--project-name', 'ks', '--process-types', '--privacy=PRIVATE:ks.api.Point', '--sidebar-expand-depth', '2'], None),
+    # overlapping pattern rules of different privacy classes (the one given last wins: their order must survive option handling)
+    'overlapping_rules': (dict(site.PROJECT_B), ['--project-name', 'proj', '--privacy=PRIVATE:pk.**', '--privacy=HIDDEN:pk.mod.*d', '--privacy=PUBLIC:pk.m*.S*', '--privacy=PRIVATE:pk.mod.S*',
+                                                 '--privacy=HIDDEN:pk.*.B*', '--privacy=PUBLIC:pk.mod.Ba*', '--privacy=PRIVATE:pk.sub*', '--privacy=PUBLIC:pk.su?'], None),
+    # members defined on one line (they tie on the source order), listed on the page of a subclass in source order
+    'source_order_ties': ({'so/__init__.py': 'class Base:\n    "doc"\n    low, high, step, unit, label = 0, 100, 5, None, None\n    alpha = beta = gamma = delta = 1\n    def m(self): "doc"\n'
+                                             'class Sub(Base):\n    "doc"\n    zeta, eta = 1, 2\nclass SubSub(Sub):\n    "doc"\n'},
+                          ['--project-name', 'so', '--cls-member-order=source', '--mod-member-order=source'], None),
     # only some objects are written, named in an order that is not the sorted one
     'html_subjects': (dict(site.PROJECT_B), ['--project-name', 'proj', '--sidebar-expand-depth', '2', '--make-html', '--make-intersphinx'] + [x for n in
                       ('pk.sub.leaf.Leaf', 'pk.mod.Base', 'pk.mod.Sub', 'pk.Exported', 'pk.mod', 'pk.mod.Base.Nested', 'pk.sub') for x in ('--html-subject', n)], None),
@@ -98,7 +105,7 @@ def _cases(tier, seed):
     names = list(PROJECTS)
     if tier == 'quick':
         names = ['single_root_unnamed', 'two_roots_unnamed', 'three_roots_named', 'zope_and_subclasses', 'docstring_errors', 'buildtime_option', 'case_pairs',
-                 'epoch_zero', 'zope_inherited_interfaces', 'star_reexport', 'sidebar_expanded', 'kitchen', 'html_subjects']
+                 'epoch_zero', 'zope_inherited_interfaces', 'star_reexport', 'sidebar_expanded', 'kitchen', 'html_subjects', 'overlapping_rules', 'source_order_ties']
     for n in names:
         yield {'project': n}
     if tier == 'thorough':
@@ -183,7 +190,7 @@ HARNESS = {
     f'{D}:get_system': {'cases': _cases, 'check': _check,
         'covers': [f'{D}:make', f'{M}:System.addPackage', f'{M}:System.root_names', 'pydoctor/templatewriter/util.py:objects_order',
                    'pydoctor/templatewriter/summary.py:_lckey', 'pydoctor/templatewriter/writer.py:TemplateWriter.writeSummaryPages'],
-        'bound': '13 (16) projects (one/two/three roots, with and without --project-name, 23 cross-importing modules, zope interfaces with 12 implementers, '
+        'bound': '15 (18) projects (one/two/three roots, with and without --project-name, 23 cross-importing modules, zope interfaces with 12 implementers, '
                  'reported docstring errors, source links, --buildtime) x {hash seed 1, hash seed 2, hash seed 77 with reversed directory listings, reused '
                  'output directory}; fresh interpreter per run; sha256 of every written file',
         'budget_s': {'quick': 400, 'thorough': 2400}},
